@@ -71,14 +71,14 @@ class MemoryLocation:
 
     # Finds the smallest size that fits the address
     def autosize_address(self, val: int) -> int:
-        fmt = math.ceil(val.bit_length() / 8) * 8
+        fmt = max(1, math.ceil(val.bit_length() / 8)) * 8     # At least one byte, so that 0 can be encoded
         if fmt > 64:
             raise ValueError("address size must be smaller or equal than 64 bits")
         return fmt
 
     # Finds the smallest size that fits the memory size
     def autosize_memorysize(self, val: int) -> int:
-        fmt = math.ceil(val.bit_length() / 8) * 8
+        fmt = max(1, math.ceil(val.bit_length() / 8)) * 8     # At least one byte, so that 0 can be encoded
         if fmt > 64:
             raise ValueError("memory size must be smaller or equal than 64 bits")
         return fmt
